@@ -43,18 +43,36 @@ impl<'a> BerDecoder<'a> for SnmpReal {
 
                 // 8.5.7.4 Bits 2 to 1 of the first contents octet
                 // shall encode the format of the exponent as follows:
-                let ln = (f & 0x03) as usize + 2;
-                let e = SnmpReal::parse_u32(&i[1..ln]) as i32;
-                let mut v: f64 = SnmpReal::parse_u32(&i[ln..]).into();
+                // 00, 01, 10 => exponent in 1, 2, 3 octets,
+                // 11 => the next octet holds the number of exponent octets
+                let (e_start, e_len) = match f & 0x03 {
+                    3 => (2usize, *i.get(1).ok_or(SnmpError::InvalidData)? as usize),
+                    n => (1usize, n as usize + 1),
+                };
+                if e_len == 0 || e_len > 4 || i.len() < e_start + e_len {
+                    return Err(SnmpError::InvalidData);
+                }
+                // The exponent is a two's complement binary number
+                let e_octets = &i[e_start..e_start + e_len];
+                let mut e: i64 = if e_octets[0] & 0x80 == 0x80 { -1 } else { 0 };
+                for &n in e_octets.iter() {
+                    e = (e << 8) | (n as i64);
+                }
+                // 8.5.7.5: The remaining contents octets encode
+                // the integer N as an unsigned binary number.
+                let n_octets = &i[e_start + e_len..];
+                if n_octets.len() > 8 {
+                    return Err(SnmpError::InvalidData);
+                }
+                let mut n = 0u64;
+                for &x in n_octets.iter() {
+                    n = (n << 8) | (x as u64);
+                }
+                let mut v = n as f64;
                 // 8.5.7.3: Bits 4 to 3 of the first contents octet shall
                 // encode the value of the binary scaling factor F
-                // as an unsigned binary integer.
-                match (f & 0x0c) >> 2 {
-                    1 => v *= 2.0,
-                    2 => v *= 4.0,
-                    3 => v *= 8.0,
-                    _ => return Err(SnmpError::InvalidData),
-                }
+                // as an unsigned binary integer. M = S * N * 2^F
+                v *= f64::from(1u8 << ((f & 0x0c) >> 2));
                 // 8.5.7.2: Bits 6 to 5 of the first contents octets
                 // shall encode the value of the base B' as follows:
                 // Bits6to5 => Base
@@ -68,7 +86,7 @@ impl<'a> BerDecoder<'a> for SnmpReal {
                     0x20 => 16.0,
                     _ => return Err(SnmpError::InvalidData),
                 };
-                v *= base.powi(e);
+                v *= base.powi(e as i32);
                 // 8.5.7.1: Bit 7 of the first contents octets
                 // shall be 1 if S is –1 and 0 otherwise.
                 if f & 0x40 == 0x40 {
@@ -110,16 +128,6 @@ impl<'a> BerDecoder<'a> for SnmpReal {
             0b01000011 => -0.0,
             _ => return Err(SnmpError::InvalidData),
         }))
-    }
-}
-
-impl SnmpReal {
-    fn parse_u32(i: &[u8]) -> u32 {
-        let mut v = 0u32;
-        for &n in i.iter() {
-            v = (v << 8) | (n as u32);
-        }
-        v
     }
 }
 
